@@ -4,6 +4,9 @@ The statement is split along the call chain (a caller is checked against the cal
 
   construct_mesh        hands each direction to origin_and_widths with raise_error=False and raises RuntimeError if any direction
                         came back None; otherwise the mesh is built from exactly the three returned (origin, widths) pairs.
+                        (option formats) a centre-on-edge switch given as bool, 3-tuple, 3-list or x/y/z dict arrives, whatever its value
+                        (arbitrary booleans, entries may be None), as the `center_on_edge` of the call for its direction; positive scalar
+                        min_width_pps / min_width_limits and common pairs arrive in every direction.
   origin_and_widths     (prefix, up to the search loop)  survey domain from domain > distance > vector, sea surface pulled into
                         the domain (or ValueError), centre part [c-dmin, c, c+dmin] (centre is a node) or [c-dmin/2, c+dmin/2]
                         (centre is a cell centre), computational domain = domain -/+ min(lambda_factor*wavelength, max_buffer)
@@ -509,6 +512,150 @@ def task_construct():
 
 
 # ---------------------------------------------------------------------------------------------
+# construct_mesh: a direction-specific option arrives in its direction in EVERY documented format, whatever its value
+# ("the centre lies on a node or a cell centre AS REQUESTED ... centre-on-edge switches ... in every accepted format")
+# ---------------------------------------------------------------------------------------------
+
+OAW_PARAMS = ('frequency', 'properties', 'center', 'domain', 'vector', 'seasurface')
+SWITCH = [z3.Bool(f'center_on_edge_{d}') for d in 'xyz']          # the requested switches: arbitrary booleans
+ABSENT = 'absent'
+
+
+def bind_oaw(e):
+    """arguments of a recorded origin_and_widths call by parameter name (positional or keyword)"""
+    b = dict(zip(OAW_PARAMS, e['args']))
+    b.update(e['kwargs'])
+    return b
+
+
+def run_construct_options(options, want):
+    """construct_mesh(frequency, [p0, p1, p2], centre, domain=[D0, D1], **options); origin_and_widths is replaced by a summary that found a grid.
+    `want` (what each direction has to receive) travels with the paths as their state."""
+    CENS = (z3.Real('cx'), z3.Real('cy'), z3.Real('cz'))
+
+    def oaw(it, args, kw, node):
+        k = sum(1 for e in it.ctx.events if e['kind'] == 'call' and e['name'] == 'meshes.origin_and_widths')
+        return (z3.Real(f'origin{k}'), cx.Opaque(f'h{k}'), cx.Opaque(f'info{k}'))
+
+    def tm(it, args, kw, node):
+        return cx.Obj('TensorMesh', dict(h=kw.get('h'), origin=kw.get('origin'), nargs=len(args)), mod='meshes')
+
+    def mk(ctx):
+        kw = dict(domain=[D0, D1])
+        kw.update(options)
+        return [FREQ, [z3.Real('p0'), z3.Real('p1'), z3.Real('p2')], CENS], kw, dict(want=want, centres=CENS)
+    return cx.run_function('meshes.construct_mesh', mk, pc0=[], summaries={'meshes.origin_and_widths': oaw, 'meshes.TensorMesh': tm}, opts={})
+
+
+def task_option_formats():
+    from .cxutil import UNRECOGNISED
+    col = ob.Collector(PROP, 'meshes.construct_mesh/option-formats')
+    col.default_replay = replay_switch
+    col.function('meshes.construct_mesh')
+
+    def directions(r):
+        """the three origin_and_widths calls of a path, by the centre coordinate they are given (not by their order)"""
+        cs = [bind_oaw(e) for e in r.events if e['kind'] == 'call' and e['name'] == 'meshes.origin_and_widths']
+        out = []
+        for c in r.state['centres']:
+            mine = [b for b in cs if b.get('center') is c]
+            if len(cs) != 3 or len(mine) != 1:
+                return None
+            out.append(mine[0])
+        return out
+
+    def arrives(name, same):
+        def post(r):
+            ds = directions(r)
+            if ds is None:
+                return UNRECOGNISED('a returned mesh is not built from one origin_and_widths call per centre coordinate')
+            goals = []
+            for d, b in enumerate(ds):
+                w = r.state['want'][d]
+                if w is None:                  # nothing requested in this direction: nothing promised
+                    continue
+                if name not in b:
+                    return False
+                g = same(b[name], w)
+                if not isinstance(g, bool) and not z3.is_expr(g):
+                    return g                   # UNRECOGNISED
+                if g is False:
+                    return False
+                if g is not True:
+                    goals.append(g)
+            return z3.And(*goals) if goals else True
+        return post
+
+    def same_switch(have, w):
+        if isinstance(have, (cx.Vec, list, tuple)) and len(have) == 1:
+            return UNRECOGNISED('the switch is handed on wrapped in a one-element sequence: origin_and_widths is only specified for a plain bool')
+        have = cx.R(have)
+        return (have == w) if z3.is_expr(have) and z3.is_bool(have) else False
+
+    def same_number(have, w):
+        # the number itself or a one-element vector holding it
+        if isinstance(have, (cx.Vec, list, tuple)):
+            if len(have) != 1:
+                return False
+            have = have[0]
+        have = cx.R(have)
+        if not (z3.is_expr(have) and (z3.is_int(have) or z3.is_real(have))):
+            return False
+        return have == w
+
+    def same_pair(have, w):
+        if not (isinstance(have, (cx.Vec, list, tuple)) and len(have) == 2):
+            return False
+        return z3.And(*[cx.R(a) == b for a, b in zip(have, w)])
+
+    rets = lambda r: r.outcome == 'return'
+    noerr = lambda r: r.outcome == 'return'
+
+    # ---- centre-on-edge switches: bool, 3-tuple, 3-list, dict; entries may be None (nothing requested there) -------------------
+    X, Y, Z = SWITCH
+    fmts = {
+        'bool': [(X, [X, X, X])],
+        'tuple': [((X, Y, Z), [X, Y, Z]), ((X, None, Z), [X, None, Z]), ((None, Y, None), [None, Y, None])],
+        'list': [([X, Y, Z], [X, Y, Z]), ([None, None, Z], [None, None, Z])],
+        'dict': [({'x': X, 'y': Y, 'z': Z}, [X, Y, Z]), ({'x': None, 'y': Y, 'z': Z}, [None, Y, Z]), ({'x': X, 'y': None, 'z': None}, [X, None, None])],
+    }
+    for fmt, runs in fmts.items():
+        res = []
+        for val, want in runs:
+            res += run_construct_options(dict(center_on_edge=val), want)
+        clause(col, f'every_direction_receives_the_requested_centre_switch_whatever_its_value/{fmt}', res, arrives('center_on_edge', same_switch), select=rets)
+        clause(col, f'a_centre_switch_is_no_error/{fmt}', res, noerr)
+    # canaries: the switches are really told apart / really looked at (a shape the clause does not recognise refutes nothing and proves nothing)
+    def wrong(r):
+        g = arrives('center_on_edge', same_switch)(r)
+        return g if isinstance(g, bool) or z3.is_expr(g) else False
+    res = run_construct_options(dict(center_on_edge=(X, Y, Z)), [Y, X, Z])
+    canary(col, 'canary/x_and_y_switch_swapped/tuple', res, wrong, select=rets)
+    res = run_construct_options(dict(center_on_edge=X), [True, True, True])
+    canary(col, 'canary/switch_always_on/bool', res, wrong, select=rets)
+
+    # ---- the other direction-specific keyword options in their scalar and common forms (positive numbers) ------------------
+    PPSI, PPSR, LIM = z3.Int('min_width_pps_int'), z3.Real('min_width_pps_real'), z3.Real('min_width_limit')
+    A, B = z3.Reals('common_a common_b')
+    pre = [PPSI > 0, PPSR > 0, LIM > 0]
+    for name, vals in (('min_width_pps', (('int', PPSI), ('float', PPSR))), ('min_width_limits', (('float', LIM),))):
+        for typ, v in vals:
+            res = run_construct_options({name: v}, [v, v, v])
+            clause(col, f'a_positive_scalar_reaches_every_direction/{name}/{typ}', res, arrives(name, same_number), pre, select=rets)
+    for name in ('distance', 'stretching', 'min_width_limits'):
+        res = run_construct_options({name: [A, B]}, [[A, B]] * 3)
+        clause(col, f'a_common_pair_reaches_every_direction/{name}', res, arrives(name, same_pair), select=rets)
+    col.satisfiable('hypotheses_satisfiable', pre)
+    return col.pack()
+
+
+def replay_switch(d):
+    from . import c16_concrete
+    import emg3d
+    return ob.guarded(c16_concrete.option_formats, emg3d.meshes)
+
+
+# ---------------------------------------------------------------------------------------------
 # closed forms: skin depth, wavelength, minimum cell width, property expansion
 # ---------------------------------------------------------------------------------------------
 
@@ -754,14 +901,14 @@ def task_estimate():
 
 
 def tasks(tier):
-    t = [('contracts.c16', n, {}) for n in ('task_prefix', 'task_search', 'task_construct', 'task_formulas', 'task_seasurface', 'task_composition', 'task_estimate')]
+    t = [('contracts.c16', n, {}) for n in ('task_prefix', 'task_search', 'task_construct', 'task_option_formats', 'task_formulas', 'task_seasurface', 'task_composition', 'task_estimate')]
     of = 4 if tier == 'quick' else 12
     t += [('contracts.c16', 'task_concrete', dict(part=k, of=of)) for k in range(of)]
     t += [('contracts.c16_stretch', n, {}) for n in ('task_lemmas', 'task_stretch')]
     return t
 
 
-LEVEL = ('Proof along the call chain: construct_mesh routing and loud failure (all paths); origin_and_widths prefix (survey domain, centre part, computational domain = '
+LEVEL = ('Proof along the call chain: construct_mesh routing and loud failure (all paths), centre switches in every documented format and of either value reach their direction; origin_and_widths prefix (survey domain, centre part, computational domain = '
          'domain -/+ min(lambda_factor*wavelength, max_buffer) or the from-centre variant) and search nest (loop invariant, any iteration counts): a returned grid is a '
          'successful use_up _stretch over the computational domain of a successful _stretch over the survey domain for the current permitted cell number, else '
          'RuntimeError/None; _stretch for every nx and every centre part on symbolic sequences (cell count, coverage, geometric structure, positivity; induction lemmas '
